@@ -1,9 +1,68 @@
 import ALV.Common.Json
+import ALV.Model.C02
+import ALV.Spec.C02
 namespace ALV.Driver.C02
-open ALV ALV.J
+open ALV ALV.J ALV.C02
 
-/-- stub: the C02 slice is not built yet -/
-def handle (entry : String) (_j : Json) : Except String Json :=
-  throw s!"C02: unknown entry {entry}"
+def getDesc (j : Json) : Except String Desc := do
+  let m ← getStr (← field j "m")
+  let nat (k : String) : Except String Nat := do getNat (← field j k)
+  match m with
+  | "sample" => pure .sample
+  | "scan" => pure .scan
+  | "first" => pure .first
+  | "zcross" => pure (.zcross (← getBool (← field j "known")))
+  | "filt" => pure (.filt (← getList getBool (← field j "pat")))
+  | "skip" => pure (.skip (← nat "n"))
+  | "pad" => pure (.pad (← nat "pre") (← nat "post"))
+  | "islice" => pure (.islice (← nat "start") (← nat "step"))
+  | "blocks" => pure (.blocks (← nat "size") (← nat "hop"))
+  | "ola" => pure (.ola (← nat "size") (← nat "hop"))
+  | "stft" => pure (.stft (← nat "size") (← nat "hop") (← getBool (← field j "ola")))
+  | "par" => pure (.par (← nat "n"))
+  | "cascade" => pure (.cascade (← nat "n"))
+  | "resample" => pure (.resample (← nat "order") (← getRat (← field j "step")))
+  | "smix" => pure (.smix (← getRat (← field j "delta")))
+  | _ => throw s!"C02: unknown stage model {m}"
+
+/-- number of outputs of a chain on a finite source of `n` items consumed to its end -/
+def chainOutLen (ds : List Desc) (n : Nat) : Nat :=
+  ((buildChain ds).st.run (List.replicate n ())).length
+
+def handle (entry : String) (j : Json) : Except String Json := do
+  match entry with
+  | "reads" =>
+    -- chain of stage descriptors, source length n, K calls of next() on the output
+    let ds ← getList getDesc (← field j "chain")
+    let n ← getNat (← field j "n")
+    let K ← getNat (← field j "k")
+    let valid := ds.all (fun d => decide d.Valid)
+    if !valid then throw "C02: stage parameters outside the modelled range"
+    let d := ds.length
+    -- model: the generator protocol run on the composed machine; level i = items pulled at
+    -- the boundary in front of stage i (level 0 = the source)
+    let levels := (List.range d).map fun i =>
+      let srcLen := if i = 0 then n else chainOutLen (ds.take i) n
+      chainPulls (ds.drop i) srcLen K
+    let outs := (chainPulls ds n K).length
+    -- spec: closed forms, composed
+    let specLevels := (List.range d).map fun i =>
+      (List.range K).map fun k => needOfChain (ds.drop i) (k + 1)
+    pure <| Json.mkObj [
+      ("construct", natToJson (buildChain ds).st.start.nread),
+      ("model", arr nats levels), ("outs", natToJson outs),
+      ("spec", arr nats specLevels), ("need", natToJson (needOfChain ds K)),
+      ("spec0", natToJson (needOfChain ds 0))]
+  | "take" =>
+    let n ← getNat (← field j "n")
+    let len ← getNat (← field j "len")
+    pure <| Json.mkObj [("model", natToJson (takeReads n len)), ("spec", natToJson (min n len))]
+  | "peek" =>
+    let n ← getNat (← field j "n")
+    let K ← getNat (← field j "k")
+    pure <| Json.mkObj [
+      ("model", nats ((List.range K).map fun k => peekThenReads n (k + 1))),
+      ("spec", nats ((List.range K).map fun k => max n (k + 1)))]
+  | _ => throw s!"C02: unknown entry {entry}"
 
 end ALV.Driver.C02
